@@ -53,6 +53,9 @@ def generate(ck, thorough):
     ck.require(all(long_first[("main", f, n)] >= 1 for f in (False, True) for n in (64, 128, 256)) and
                sum(v for (g, f, n), v in long_first.items() if g == "aux") >= 6,
                "long sequences missing: %s" % dict(long_first))
+    ck.require(all(s["blowups"] == [2, 4, 8, 16] for s in sc if s["fam"] == "long") and all(len(s["blowups"]) >= 2 for s in sc if s["fam"] == "pair")
+               and sum(1 for s in sc if s["fam"] in ("rand", "each") and 16 in s["blowups"]) >= 20,
+               "LDE blowups 2x/4x/8x the constraint evaluation blowup are missing from the prover-evaluator cases")
     ck.require({s["d"] for s in sc} == {1, 2, 3} and {s["P"] for s in sc} >= {97, 193, 257, 40961}, "fields / extension degrees missing")
     ck.part("gen:boundary", families=dict(fams), assertions={"%s/%s" % k: v for k, v in sorted(kinds.items())},
             sequences_of_64_or_more={"%s first>0=%s n=%d" % k: v for k, v in sorted(long_first.items())})
@@ -71,7 +74,8 @@ def events_of(scenarios, obs):
                    "seg": [0] * len(sc["main"]) + [1] * len(sc["aux"]),
                    "steps": [r["steps"] for r in rows], "num": [r["num"] for r in rows], "z": [r["zx"] for r in rows],
                    "assign": ob["assign"], "groups": [{"members": g["members"], "vals": g["vals"]} for g in ob["groups"]],
-                   "cnum": [r["cnum"] for r in rows], "cz": [r["zc"] for r in rows], "comp": ob.get("comp", [])})
+                   "cnum": [r["cnum"] for r in rows], "cz": [r["zc"] for r in rows],
+                   "blowups": sc["blowups"], "comp": ob.get("comp", [])})
         idx.append(o["i"])
     return ev, idx
 
@@ -113,7 +117,9 @@ def validate(ck, scenarios, events, idx, name="trace"):
     ck.traces += len(events)
     ck.part("validate:" + name, events=len(events), rejected=rejected,
             permutations=sum(len(e["assign"]) for e in events), groups=sum(len(e["groups"]) for e in events),
-            composition_values=sum(len(e["comp"]) for e in events))
+            evaluator_runs=sum(len(e["comp"]) for e in events),
+            evaluator_runs_by_lde_over_ce_blowup=dict(collections.Counter("%dx" % (b // 2) for e in events for b in e["blowups"][:len(e["comp"])])),
+            composition_values=sum(len(v) for e in events for v in e["comp"]))
 
 
 def run_all(ck, binary, sc, label="serial"):
@@ -123,6 +129,8 @@ def run_all(ck, binary, sc, label="serial"):
     ck.require(len(events) + len(ck.violations) + len(ck.known_hits) >= len(sc) or len(events) > 0.9 * len(sc),
                "too few complete observations: %d of %d" % (len(events), len(sc)))
     validate(ck, sc, events, idx, name="trace-" + label)
+    if not label.endswith("-dev") and len(events) == len(sc):
+        ck.require(all(len(e["comp"]) == len(e["blowups"]) for e in events), "the prover's evaluator did not run for every LDE blowup")
     return summary
 
 
